@@ -13,6 +13,9 @@
 //!                                  rt: a scalar does not survive borrowed -> owned -> borrowed;
 //!                                  eq<type>: resolved docs are not == eager docs under the type's own Eq;
 //!                                  idem<type>: resolving a resolved/eager tree changed it)
+//!   hx_c07 api       case line = a YAML text.  The public entry points instead of a hand-driven loader:
+//!                    `N::load_from_str` for the four node types, `Yaml::load_from_iter`, `Yaml::load_from_parser`
+//!                    (6 `|`-separated fields: `OK d ; d` dumps without spans or `ERR@i:l:c#msg`).
 //!   hx_c07 eqhash    case line = a YAML text (space separated code points).  Loads it as MarkedYaml and
 //!                    MarkedYamlOwned from the text itself and from the text behind a comment line and a
 //!                    blank line; prints `EQ<0|1> H<0|1> SP<0|1>` per type (`SP1` = some span differs), or SKIP.
@@ -478,10 +481,37 @@ fn eqhash_mode(line: &str) -> String {
     guard(move || format!("{}|{}", eqhash_one::<MarkedYaml>(&a, &b), eqhash_one::<MarkedYamlOwned>(&a, &b)))
 }
 
+// ---------------------------------------------------------------------------------------------
+// the public loading entry points
+// ---------------------------------------------------------------------------------------------
+fn api_res<'a, N: Node<'a>>(r: Result<Vec<N>, saphyr_parser::ScanError>) -> String {
+    match r {
+        Ok(d) => docs_dump(&d, false),
+        Err(e) => err(&e),
+    }
+}
+fn api_mode(line: &str) -> String {
+    let Some(s) = decode(line) else {
+        return "|BADCASE".into();
+    };
+    guard(move || {
+        let mut p = Parser::new(StrInput::new(&s));
+        [
+            api_res(Yaml::load_from_str(&s)),
+            api_res(YamlOwned::load_from_str(&s)),
+            api_res(MarkedYaml::load_from_str(&s)),
+            api_res(MarkedYamlOwned::load_from_str(&s)),
+            api_res(Yaml::load_from_iter(s.chars())),
+            api_res(Yaml::load_from_parser(&mut p)),
+        ]
+        .join("|")
+    })
+}
+
 fn main() {
     let args: Vec<String> = std::env::args().collect();
     if args.len() < 2 {
-        eprintln!("usage: hx_c07 load|eqhash < cases > results");
+        eprintln!("usage: hx_c07 load|api|eqhash < cases > results");
         std::process::exit(2);
     }
     std::panic::set_hook(Box::new(|_| {}));
@@ -494,6 +524,7 @@ fn main() {
         let res = match mode {
             "load" => load_mode(&line),
             "eqhash" => eqhash_mode(&line),
+            "api" => api_mode(&line),
             _ => format!("|BADMODE {mode}"),
         };
         out.write_all(res.as_bytes()).unwrap();
